@@ -616,6 +616,135 @@ def calc_unit():
     return unit
 
 
+# ----------------------------------------------------------------------------------------------------------
+# geostructures/coordinates.py :: Coordinate.to_dms / from_dms / to_qdms / from_qdms and their local helpers   (C19)
+#
+# a `str` is the list of its characters (`Chars`), a float an exact rational (§3), the receiver the model's `Coord`
+# record; the local functions (`convert` ×3, `zero_pad` at an int and at a str) are instances of their own
+# (`outer.inner`).  Translated from the text: hemisphere selection, `abs`, the `divmod` chain, `int(...)`, the tuple
+# plumbing (`*convert(...)`, `*lon_dms`), `zero_pad` (`str`, `.replace`, `'0' * (length - len(_)) + _`), the list of
+# fields and the f-string assembly, the slices `lon[1:4]` … on the way back, `lon[0]` (IndexError), the evaluation
+# order of the `float(...)` calls (ValueError), the sign factor.  Declared, not translated: `round_half_up` (pinned;
+# the model's exact half-up rounding, DESIGN §6 C19), `float(text)` and `f'{x:.2f}'` (Python runtime, read as
+# `Model/Dms.lean` reads them: `GV.PyStr.parseFloat`, `GV.PyStr.fmtF2`), `Coordinate(x, y)` (the model's `Coord.new`;
+# the constructor is SrcCoord's subject).
+
+PINS.setdefault('utils/functions.py::round_half_up', '77e90ff33328c6e2')          # SrcDms: the model's `roundHalfUp`
+
+
+def dms_unit():
+    import ast as _ast
+    import re as _re
+    src = py2lean.Source(_repo('coordinates.py'))
+    C = 'Coordinate'
+    DI, DF = 'Prod Int Int R Chars', 'Prod R R R Chars'
+    insts = [
+        Inst(f'{C}.to_dms.convert', 'toDms.convert', [('dd', 'R')], 'Prod Int Int R'),
+        Inst(f'{C}.to_dms', 'toDms', [('self', 'CoordO')], f'Pair {DI}'),
+        Inst(f'{C}.from_dms.convert', 'fromDms.convert', [('dms', DF)], 'R'),
+        Inst(f'{C}.from_dms', 'fromDms', [('cls', 'None'), ('lon', DF), ('lat', DF)], 'CoordO'),
+        Inst(f'{C}.to_qdms.zero_pad', 'toQdms.zeroPadInt', [('num', 'Int'), ('length', 'Int')], 'Chars'),
+        Inst(f'{C}.to_qdms.zero_pad', 'toQdms.zeroPadStr', [('num', 'Chars'), ('length', 'Int')], 'Chars'),
+        Inst(f'{C}.to_qdms', 'toQdms', [('self', 'CoordO'), ('reverse', 'Bool')], 'Pair Chars'),
+        Inst(f'{C}.from_qdms.convert', 'fromQdms.convert', [('q', 'Chars'), ('d', 'Chars'), ('m', 'Chars'), ('s', 'Chars')], 'Except R'),
+        Inst(f'{C}.from_qdms', 'fromQdms', [('cls', 'None'), ('lon', 'Chars'), ('lat', 'Chars')], 'Except CoordO'),
+    ]
+    py2lean.LEAN_TYPE.setdefault('Chars', 'List Char')
+    py2lean.LEAN_TYPE.setdefault('CoordO', 'GV.CoordObj.Coord')
+
+    def nat_literal(v):
+        m = _re.fullmatch(r'\((\d+) : Int\)', v.text)
+        return int(m.group(1)) if m and v.typ == 'Int' else None
+
+    def types(args):
+        return [a.typ for a in args]
+
+    def rhu(tr, args):
+        # round_half_up(value, precision) with a literal precision: the model's exact half-up rounding (pinned helper)
+        if len(args) != 2 or args[0].typ != 'R' or nat_literal(args[1]) is None:
+            raise Unsupported('round_half_up(' + ', '.join(a.text for a in args)[:60] + ')')
+        return Val(f'(GV.Dms.roundHalfUp {args[0].text} {nat_literal(args[1])})', 'R')
+
+    def divmod_(tr, args):
+        # divmod(float, positive literal): cannot raise
+        if len(args) != 2 or args[0].typ != 'R' or not nat_literal(args[1]):
+            raise Unsupported('divmod(' + ', '.join(a.text for a in args)[:60] + ')')
+        return Val(f'(GV.PyStr.divmodR {args[0].text} ({args[1].text} : Rat))', 'Prod R R')
+
+    def abs_(tr, args):
+        if types(args) == ['R']:
+            return Val(f'(GV.absR {args[0].text})', 'R')
+        if types(args) == ['Int']:
+            return Val(f'(GV.PyStr.absI {args[0].text})', 'Int')
+        raise Unsupported(f'abs of {types(args)}')
+
+    def int_(tr, args):
+        if types(args) == ['R']:
+            return Val(f'(GV.PyStr.truncR {args[0].text})', 'Int')
+        if types(args) == ['Int']:
+            return args[0]
+        raise Unsupported(f'int() of {types(args)}')          # int(text) is not part of the unit
+
+    def str_(tr, args):
+        if types(args) == ['Int']:
+            return Val(f'(GV.PyStr.strInt {args[0].text})', 'Chars')
+        if types(args) == ['Chars']:
+            return args[0]
+        raise Unsupported(f'str() of {types(args)}')          # str(float) is runtime: not part of the unit
+
+    def len_(tr, args):
+        if types(args) == ['Chars']:
+            return Val(f'((({args[0].text}).length : Nat) : Int)', 'Int')
+        raise Unsupported(f'len() of {types(args)}')
+
+    def float_(tr, args):
+        if types(args) == ['R']:
+            return args[0]
+        if types(args) == ['Int']:
+            return Val(f'({args[0].text} : Rat)', 'R')
+        if types(args) == ['Chars']:
+            v = Val(f'(GV.PyStr.parseFloat {args[0].text})', 'R')
+            v.raises = True                                      # ValueError
+            return v
+        raise Unsupported(f'float() of {types(args)}')
+
+    def coordinate(tr, args):
+        if types(args) != ['R', 'R']:
+            raise Unsupported('Coordinate(' + ', '.join(types(args)) + ')')
+        return Val(f'(GV.CoordObj.Coord.new {args[0].text} {args[1].text})', 'CoordO')
+
+    def fmt2f(tr, args):
+        if types(args) != ['R']:
+            raise Unsupported(f'format spec .2f of {types(args)}')
+        return Val(f'(GV.PyStr.fmtF2 {args[0].text})', 'Chars')
+
+    def method(tr, recv, attr, args):
+        if recv.typ != 'Chars':
+            return None
+        if attr == 'replace' and len(args) == 2 and isinstance(args[0], _ast.Constant) and isinstance(args[0].value, str) \
+                and len(args[0].value) == 1:
+            new = tr.expr(args[1])
+            if new.typ != 'Chars':
+                raise Unsupported(f'str.replace with a replacement of type {new.typ}')
+            c = py2lean.chars_literal(args[0].value)[2:].split(']')[0]
+            return Val(f'(GV.PyStr.replace1 {recv.text} {c} {new.text})', 'Chars')
+        if attr == 'join' and len(args) == 1:
+            xs = tr.expr(args[0])
+            if xs.typ != 'List Chars':
+                raise Unsupported(f'str.join of {xs.typ}')
+            return Val(f'(GV.PyStr.join {recv.text} {xs.text})', 'Chars')
+        raise Unsupported(f'str method `.{attr}`')
+
+    intr = {'round_half_up': rhu, 'divmod': divmod_, 'abs': abs_, 'int': int_, 'str': str_, 'len': len_, 'float': float_,
+            'Coordinate': coordinate, 'format:.2f': fmt2f}
+    return Unit('SrcDms', src, 'GV.Src.Dms', ['GeoVerif.Model.Dms', 'GeoVerif.Model.PyStr'], insts, {'CoordO': C},
+                attr_types={('CoordO', 'longitude'): ('{}.lon', 'R'), ('CoordO', 'latitude'): ('{}.lat', 'R')},
+                pins={'utils/functions.py::round_half_up': PINS['utils/functions.py::round_half_up']},
+                intrinsics=intr,
+                hooks={'isinstance': lambda typ: None, 'str_const': True, 'tuples': True, 'method': method,
+                       'intrinsics_first': ('float', 'int', 'str', 'len', 'abs', 'divmod')})
+
+
 UNITS = {'SrcTime': time_unit, 'SrcBase': base_unit, 'SrcMulti': multi_unit, 'SrcColl': coll_unit, 'SrcPip': pip_unit,
          'SrcMember': member_unit, 'SrcTrack': track_unit, 'SrcRelate': relate_unit, 'SrcCoord': coord_unit,
          'SrcCurved': curved_unit, 'SrcCalc': calc_unit}
@@ -632,3 +761,6 @@ def render(name):
     stub = ('/-!\n# GENERATED by harness/py2lean.py — the current source could NOT be translated:\n'
             f'{reason}\n-/\n')
     return stub, reason
+
+
+UNITS['SrcDms'] = dms_unit
